@@ -23,7 +23,7 @@ var verifSelectors = []string{
 	"a starts with 'x'",
 }
 
-type verifModel struct {
+type verifRefIndex struct {
 	itemLabels   [2]map[string]string
 	itemParents  [2][]string
 	parentLabels map[string]map[string]string
@@ -48,7 +48,7 @@ func verifLabelMap(tag string) map[string]string {
 	return m
 }
 
-func (m *verifModel) effective(item int) (map[string]string, bool) {
+func (m *verifRefIndex) effective(item int) (map[string]string, bool) {
 	if m.itemLabels[item] == nil {
 		return nil, false
 	}
@@ -69,7 +69,7 @@ func (m *verifModel) effective(item int) (map[string]string, bool) {
 func VerifHarness_C07_inherit() {
 	kmax := verifParam("K", 3)
 	nsel := verifParam("NSEL", len(verifSelectors))
-	m := &verifModel{parentLabels: map[string]map[string]string{}, sels: map[int]string{}, matches: map[[2]int]bool{}}
+	m := &verifRefIndex{parentLabels: map[string]map[string]string{}, sels: map[int]string{}, matches: map[[2]int]bool{}}
 	idx := NewInheritIndex(
 		func(selID, labelID any) {
 			k := [2]int{selID.(int), labelID.(int)}
